@@ -1366,6 +1366,38 @@ fn c13_items(tier: Tier) -> Vec<Vec<Piece>> {
     items
 }
 
+/// token types on the default channel, normalised for what the lexer documents as depending on
+/// the neighbourhood: numeric operands count as text (an operand followed by a comment stays
+/// text), text that is only white space is dropped (blanks inside argument values are text),
+/// runs of text tokens are merged, zero-width virtual tokens are dropped
+fn default_stream(src: &str, r: &LexResult) -> Vec<T> {
+    let view = View::new(src, r);
+    let mut v: Vec<T> = Vec::new();
+    for t in &view.toks {
+        if t.ch != Ch::DEFAULT {
+            continue;
+        }
+        let mut ty = t.ty;
+        if matches!(ty, T::MacroSep | T::MacroStringEmpty) {
+            continue;
+        }
+        if matches!(ty, T::IntegerLiteral | T::FloatLiteral | T::FloatExponentLiteral) {
+            ty = T::MacroString;
+        }
+        if ty == T::MacroString {
+            let text = src.get(t.start as usize..t.end as usize).unwrap_or("");
+            if !text.is_empty() && text.chars().all(char::is_whitespace) {
+                continue;
+            }
+            if v.last() == Some(&T::MacroString) {
+                continue;
+            }
+        }
+        v.push(ty);
+    }
+    v
+}
+
 fn c13_run(cfg: &Config) -> PropRun {
     let ex = Explorer::new(cfg.threads, cfg.cap_s, if cfg.tier == Tier::Quick { 26 } else { 30 });
     let items = c13_items(cfg.tier);
@@ -1400,11 +1432,59 @@ fn c13_run(cfg: &Config) -> PropRun {
             }
         },
     );
+    // Gap invariance over the chain grammar G: the gap markers stand where SAS ignores blanks
+    // and comments, so whatever fills them goes to the hidden/comment channels and the stream
+    // on the default channel (token types; adjacent text tokens merged) is the same for every
+    // filler. Base line: the single blank.
+    let d = if cfg.tier == Tier::Quick { 2 } else { 3 };
+    let mut tmpls: Vec<String> = chains(d)[&'S'].clone();
+    tmpls.extend(rare_templates(1));
+    tmpls.extend(rare_leaf_templates());
+    tmpls.retain(|t| t.contains(GAP));
+    tmpls.sort();
+    tmpls.dedup();
+    let gi = ex.run_list(
+        &format!("G.gap-invariance(chains of depth<={d} and the rare contexts, every filler against the single blank)"),
+        tmpls.len() as u64,
+        |i, buf| buf.push_str(&tmpls[i as usize]),
+        |local, tmpl, _| {
+            let mut base: Option<Vec<T>> = None;
+            let mut src = String::new();
+            for (k, f) in [1usize, 0, 2, 3, 4, 5, 6, 7].iter().map(|k| (*k, FILLERS[*k])) {
+                src.clear();
+                apply_filler(tmpl, f, &mut src);
+                local.lexer_runs += 1;
+                let Outcome::Ok(r) = run_lexer(&src) else {
+                    local.unobservable += 1;
+                    continue;
+                };
+                if r.verif.budget_exceeded {
+                    local.unobservable += 1;
+                    continue;
+                }
+                let sig = default_stream(&src, &r);
+                match &base {
+                    None => base = Some(sig),
+                    Some(b) => {
+                        if *b != sig {
+                            let at = b.iter().zip(sig.iter()).position(|(x, y)| x != y).unwrap_or(b.len().min(sig.len()));
+                            local.finding(
+                                format!("C13 gap.changes-default-stream:filler{k}:{:?}/{:?}", b.get(at), sig.get(at)),
+                                &src,
+                            );
+                        }
+                    }
+                }
+            }
+            Visit { cfg: None, nontrivial: true }
+        },
+    );
+    report.absorb(gi);
     report.distinct_nontrivial = ex.distinct_nontrivial.load(std::sync::atomic::Ordering::Relaxed);
     PropRun {
         report,
-        rule: "every call/definition of G13 (heads x argument lists of 0..3 arguments x optional name= x 18 value shapes x 3 gap fillers) and every expression (operator sequences of <= 3 operators over symbols and mnemonics in several letter cases x operand shapes x 11 hosts x gap fillers); non-trivial = contains masked text or more than 8 pieces".into(),
-        oracle: "each recorded delimiter/operator/integer is exactly one token of the expected type and channel; no delimiter-type token starts inside masked text; gaps are covered by hidden/comment tokens only; no error".into(),
+        rule: "every call/definition of G13 (heads x argument lists of 0..3 arguments x optional name= x 18 value shapes x 3 gap fillers) and every expression (operator sequences of <= 3 operators over symbols and mnemonics in several letter cases x operand shapes x 11 hosts x gap fillers); every chain of G of depth <= 2 (thorough 3) and every rare context under all 8 gap fillers (gap invariance); non-trivial = contains masked text or more than 8 pieces".into(),
+        oracle: "each recorded delimiter/operator/integer is exactly one token of the expected type and channel; no delimiter-type token starts inside masked text; gaps are covered by hidden/comment tokens only; no error; for the chain grammar: the default-channel token type sequence is the same whatever fills the gap markers".into(),
     }
 }
 
